@@ -75,6 +75,29 @@ def run_method(mod, folder, cls, name, valuation, base=10):
     return m, r, res
 
 
+def renumber_loops(chk, rule):
+    """every loop of an update_context_id method that hands out ids advances the counter by what it handed out"""
+    mod = chk.repo.mod('cassandra/cqlengine/statements.py')
+    n = 0
+    for q, f in mod.functions():
+        if not q.endswith('.update_context_id'):
+            continue
+        for lp in [x for x in body_walk(f) if isinstance(x, ast.For)]:
+            sets = [c for c in ast.walk(lp) if isinstance(c, ast.Call) and isinstance(c.func, ast.Attribute) and c.func.attr == 'set_context_id']
+            if not sets:
+                continue
+            n += 1
+            v = src(lp.target)
+            adv = [a for a in ast.walk(lp) if isinstance(a, ast.AugAssign) and isinstance(a.op, ast.Add) and src(a.target) == 'self.context_counter'
+                   and src(a.value) == '%s.get_context_size()' % v]
+            good = len(sets) == 1 and src(sets[0].func.value) == v and [src(a) for a in sets[0].args] == ['self.context_counter'] and len(adv) == 1
+            chk.judge(good, rule, lp, '%s: for %s in %s: set_context_id(context_counter); context_counter += get_context_size()' % (q, v, src(lp.iter)),
+                      'the loop over %s renumbers its clauses without advancing the counter by their size: in a batch (the only caller of update_context_id) two clauses of one '
+                      'statement - e.g. two map-key removals - get the same placeholder id and the second value overwrites the first' % src(lp.iter))
+    if n < 5:
+        raise AnalysisError('update_context_id loops: found %d, expected at least 5' % n)
+
+
 def check(chk):
     chk.decides = ('for every clause class and every None / empty / non-empty valuation of the attributes it tests: the placeholder ids rendered by '
                    '__unicode__, the ids bound by update_context and the count returned by get_context_size agree; each statement class renumbers and binds '
@@ -166,6 +189,25 @@ def check(chk):
             if size != len(rid):
                 probs.append('renders %d placeholder(s), get_context_size() = %r' % (len(rid), size))
             chk.judge(not probs, 'C37.triple', cls, label, '; '.join(probs))
+    # the k-th placeholder rendered and the k-th value bound belong to the same operation (assignment / prepend / append / add / remove)
+    def slot_order(fn):
+        out = []
+        for n in body_walk(fn):
+            if isinstance(n, ast.If) and any('ctx_id' in src(x) or 'ctx[' in src(x) or 'qs' in src(x) for x in n.body):
+                attrs = sorted(set(a.attr for a in ast.walk(n.test) if isinstance(a, ast.Attribute) and src(a.value) == 'self' and a.attr.startswith('_')))
+                if attrs:
+                    out.append(tuple(attrs))
+        return out
+    for cname in ('SetUpdateClause', 'ListUpdateClause'):
+        cls = mod.cls(cname)
+        itx = Interp(mod, folder)
+        fu, _ = itx.resolve_method(cls, '__unicode__')
+        fb, _ = itx.resolve_method(cls, 'update_context')
+        ou, ob = slot_order(fu), slot_order(fb)
+        if len(ou) < 2:
+            raise AnalysisError('%s: render slots not recognised' % cname)
+        chk.judge(ou == ob, 'C37.triple', cls, '%s: operations take their placeholders in the same order in render and bind %s' % (cname, ou),
+                  'render takes ids in the order %s, bind in the order %s: when both operations occur in one update each placeholder receives the other one\'s value' % (ou, ob))
     # map: finite part + loop step agreement
     mcls = mod.cls('MapUpdateClause')
     for prev, upd_, rem in itertools.product(TRI, TRI, TRI):
@@ -269,6 +311,7 @@ def check(chk):
         chk.judge(rendered <= set(bound), 'C37.lists', cls, '%s: rendered lists %s are all bound' % (cname, sorted(rendered)),
                   'lists %s are rendered but get_context() never binds them' % sorted(rendered - set(bound)))
         chk.judge(len(set(bound)) == len(bound), 'C37.lists', cls, '%s: each list bound once' % cname, 'get_context binds a list twice: %s' % bound)
+    renumber_loops(chk, 'C37.lists')
     base_uc = mod.func('BaseCQLStatement.update_context_id')
     s = src(base_uc)
     chk.judge('self.context_id = i' in s and 'self.context_counter = self.context_id' in s, 'C37.lists', base_uc, 'renumbering restarts the counter at the offset', 'renumbering does not restart at the offset')
